@@ -215,13 +215,13 @@ def approx_corr(R, name, header, items, vals_of, rtol, chunk, distribution, exac
     for it, v in zip(items, vals):
         m = vals_of(v)
         R.add_distinct((name, it['input']))
-        ok = (m == it['impl']) if exact else close(m, it['impl'], rtol)
+        ok = (m == it['impl']) if it.get('exact', exact) else close(m, it['impl'], rtol)
         if not ok:
             mm = m if isinstance(m, tuple) else [float(x) for x in m][:40]
             bad.append(dict(stream=name, input=it['input'], model=mm,
                             impl=it['impl'] if isinstance(it['impl'], tuple) else it['impl'][:40]))
     R.corr.append(dict(name=name, cases=len(items), mismatches=len(bad),
-                       comparison=('exact equality (bits)' if exact else
+                       comparison=('exact equality of the doubles (func_int_general); 1e-10 relative (func_get custom basis)' if exact else
                                    f'|impl - model| <= {rtol} * max(1, max|model|), error class exact'),
                        distribution=distribution, first_mismatches=bad[:3]))
     if items:
@@ -491,9 +491,9 @@ def corr_general(R, tn, rng, th, header):
             xs = '[' + '; '.join(f'({flist(x)}, {flist2([big(np.array([xk]))[:, 0].tolist() for xk in x])})' for x in Xn) + ']'
             one = flist([1.0] * d)
             mone = flist([-1.0] * d)
-            items.append(dict(coq=f'f_get_custom {xs} {ftt(A)} {mone} {one} {flt(z)} true', impl=implg,
+            items.append(dict(coq=f'f_get_custom {xs} {ftt(A)} {mone} {one} {flt(z)} true', impl=implg, exact=False,
                               input=['func_get_custom', d, m, n, Xn]))
-    bad = approx_corr(R, 'general_lstsq_replayed', header, items, f_vals, 0, 8, dist, exact=True)
+    bad = approx_corr(R, 'general_lstsq_replayed', header, items, f_vals, 1e-10, 8, dist, exact=True)
     if dist['contract_violations']:
         R.corr.append(dict(name='lstsq_contract', cases=dist['contract_checked'], mismatches=dist['contract_violations'],
                            comparison='recorded scipy.linalg.lstsq calls: shape and zero residual on consistent data',
